@@ -111,3 +111,98 @@ def transitions(obs):
         if new not in TABLE.get(old, []):
             tags.append(f"illegal-transition:{old}->{new}")
     return sorted(set(tags))
+
+
+# ------------------------------------------------------------------------------------------------ lifecycle (C07 / C08)
+def c07_lifecycle(obs, case=None):
+    tags = transitions(obs)
+    if obs.stuck:
+        tags.append("engine-stuck")
+    for c in obs.calls:
+        if c["state"] not in ("idle", "paused"):
+            tags.append(f"state-{c['state']}-after-{c['api']}-returned")
+        if c["exc_type"] == "TransitionError" and c["api"] == "call":
+            tags.append("RE-call-raised-TransitionError")
+    if obs.state not in ("idle", "paused"):
+        tags.append(f"final-state-{obs.state}")
+    if obs.followup is not None:
+        f = obs.followup
+        if f["outcome"] != "ret" or f["state"] != "idle" or f["docs"] != ["start", "stop"]:
+            tags.append("engine-unusable-for-next-call")
+    return sorted(set(tags))
+
+
+def section_at(obs, nmsgs):
+    """Is the plan, per the documented rule, in a non-resumable section after executing msgs[:nmsgs]?
+    'none' (no checkpoint ever), 'cleared' (last of checkpoint/clear_checkpoint is clear_checkpoint), 'checkpointed'."""
+    last = "none"
+    for m in obs.msgs[:nmsgs]:
+        if m.command == "checkpoint":
+            last = "checkpointed"
+        elif m.command == "clear_checkpoint":
+            last = "cleared"
+    return last
+
+
+def interruptions(obs):
+    """[(kind, nmsgs, step, section)] for every transition into pausing / suspending."""
+    out = []
+    for (old, new), (n, step, nd) in zip(obs.trans, obs.trans_meta):
+        if new in ("pausing", "suspending"):
+            out.append((new, n, step, section_at(obs, n)))
+        elif new == "aborting" and old == "running":
+            # either an abort request, or a pause/suspension that found no checkpoint (FailedPause)
+            aborts = [r for r in obs.reqs if r["kind"] == "abort" and r["out"][0] == "ret" and r["step"] <= step]
+            if not aborts:
+                out.append(("failed", n, step, section_at(obs, n)))
+    return out
+
+
+def terminal_cause(obs):
+    """First event documented to terminate the plan -> (cause, record).  cause in abort/stop/halt/failed-pause/None."""
+    ev = []
+    for r in obs.reqs:
+        if r["kind"] in ("abort", "stop", "halt") and r["out"][0] == "ret":
+            ev.append((r["step"], 0, r["kind"], r))
+    for c in obs.calls:
+        if c["api"] in ("abort", "stop", "halt") and c["outcome"] == "ret":
+            ev.append((c["steps"], 1, c["api"], c))
+    for kind, n, step, section in interruptions(obs):
+        if section in ("cleared", "none"):
+            ev.append((step, 0, "failed-pause", dict(kind=kind, nmsgs=n, step=step)))
+    ev.sort(key=lambda x: (x[0], x[1]))
+    return (ev[0][2], ev[0][3]) if ev else (None, None)
+
+
+def c08_interrupted(obs, case=None):
+    tags = []
+    cause, _ = terminal_cause(obs)
+    for i, c in enumerate(obs.calls):
+        if c["api"] not in ("call", "resume"):
+            continue
+        if c["exc_type"] == "RunEngineInterrupted":
+            if c["state"] == "paused":
+                if not c["resumable"]:
+                    tags.append("paused-but-not-resumable")
+            elif c["state"] == "idle":
+                if cause is None:
+                    ints = interruptions(obs)
+                    pe = obs.plan_end
+                    if pe is not None and pe[0] == "return" and all(n >= pe[3] for _, n, _, _ in ints):
+                        tags.append("RunEngineInterrupted-but-idle:pause-landed-after-plan-completed")
+                    elif any(sec == "checkpointed" for _, _, _, sec in ints) and any(m.command == "clear_checkpoint" for m in obs.msgs):
+                        tags.append("RunEngineInterrupted-but-idle:checkpoint-after-clear_checkpoint-did-not-restore-resumability")
+                    else:
+                        tags.append("RunEngineInterrupted-but-idle-without-termination")
+                if any(n == "start" for n, _ in obs.docs[: c["ndocs"]]):
+                    runs, _ = group_runs(obs.docs[: c["ndocs"]])
+                    if any("stop" not in [n for _, n, _ in items] for items in runs.values()):
+                        tags.append("interrupted-idle-with-open-run")
+            else:
+                tags.append(f"RunEngineInterrupted-in-state-{c['state']}")
+        elif c["outcome"] == "ret":
+            if c["state"] != "idle":
+                tags.append(f"call-returned-normally-in-state-{c['state']}")
+            if obs.plan_end is None or obs.plan_end[0] != "return":
+                tags.append("call-returned-normally-but-plan-did-not-complete")
+    return sorted(set(tags))
